@@ -78,6 +78,10 @@ pub struct ReplayDoc {
 
 fn drive<S: Scenario>(prop: &str, sw: &Swarm, mut source: impl FnMut(&mut S, &mut Ctx) -> Option<Op>, max_steps: usize) -> (Ctx, Vec<Op>, Option<Violation>) {
     let mut cx = Ctx::new(prop);
+    // the executor's rayon operators would run on real worker threads: outside scen_mask (which installs its
+    // own configurations, and for C04 the seeded scheduler stand-in) every run uses the never-parallel
+    // thresholds, so that large tables cannot make an event log depend on thread timing
+    vibesql_types::verif::set_parallel_config(Some(3));
     let mut sc = S::new(prop, sw);
     let mut ops: Vec<Op> = Vec::new();
     let mut violation = None;
